@@ -6,14 +6,22 @@ import XzVerif.Lemmas.MtDecProgress2
 
 namespace XzVerif.MtDec
 
-theorem enabled_of_isSome {s : State} {l : Label} (h : (step s l).isSome = true) (he : l.isExpiry = false) :
-    ∃ l s', step s l = some s' ∧ l.isExpiry = false := by
+/-- A Block decoder call that makes progress: verdict, input consumed, output produced, or it was called with no input (the
+    first call after PARTIAL_START). All other transitions count as progressive. -/
+def Progressive (s : State) : Label → Prop
+  | .wDecode i a b v => v = true ∨ (getW s i).inPos < a ∨ (getW s i).outPos < b ∨
+      ∃ lim pu, (getW s i).pc = .decode lim pu ∧ lim = (getW s i).inPos
+  | _ => True
+
+theorem enabled_of_isSome {s : State} {l : Label} (h : (step s l).isSome = true) (he : l.isExpiry = false)
+    (hp : Progressive s l := by exact True.intro) :
+    ∃ l s', step s l = some s' ∧ l.isExpiry = false ∧ Progressive s l := by
   obtain ⟨s', hs⟩ := Option.isSome_iff_exists.mp h
-  exact ⟨l, s', hs, he⟩
+  exact ⟨l, s', hs, he, hp⟩
 
 theorem worker_can_step {s : State} (hwf : ∀ j, (blk s j).WF) (hP : PrivInv s) (i : Nat) (hi : i < s.workers.length)
     (hne : (getW s i).pc ≠ .exited) (hnw : ¬ ((getW s i).pc = .wait ∧ (getW s i).woken = false)) :
-    ∃ l s', step s l = some s' ∧ l.isExpiry = false := by
+    ∃ l s', step s l = some s' ∧ l.isExpiry = false ∧ Progressive s l := by
   have hp := hP i hi
   cases hpc : (getW s i).pc with
   | top => exact enabled_of_isSome (l := .wLoop i .enter) (by simp [step, hi, hpc]) rfl
@@ -25,34 +33,35 @@ theorem worker_can_step {s : State} (hwf : ∀ j, (blk s j).WF) (hP : PrivInv s)
     exact enabled_of_isSome (l := .wLoop i .signalled) (by simp [step, hi, hpc, hw]) rfl
   | decode lim pu =>
     have hd := hp.2.2.2 lim pu hpc
-    by_cases hlt : (getW s i).inPos < (blk s (getW s i).blk).inSize
-    · refine enabled_of_isSome (l := .wDecode i (getW s i).inPos (getW s i).outPos false) ?_ rfl
-      have hg : (decide ((getW s i).inPos ≤ (getW s i).inPos) && decide ((getW s i).inPos ≤ lim) &&
-          decide ((getW s i).inPos ≤ (blk s (getW s i).blk).needIn) && decide ((getW s i).outPos ≤ (getW s i).outPos) &&
-          decide ((getW s i).outPos ≤ (blk s (getW s i).blk).data.length) &&
-          (false || decide ((getW s i).inPos < (blk s (getW s i).blk).inSize))) = true := by
-        simp [hd.1, hp.2.1, hp.2.2.1, hlt]
-      simp only [step, hi, if_true, hpc, hg]
-      simp
-      split <;> rfl
-    · -- the whole Block has been consumed: the decoder delivers its verdict
-      have hwfb := hwf (getW s i).blk
-      have hneed : (getW s i).inPos = (blk s (getW s i).blk).needIn := by
-        have a := hp.2.1
-        have b := hwfb.2.2.1
-        omega
-      refine enabled_of_isSome (l := .wDecode i (getW s i).inPos (blk s (getW s i).blk).data.length true) ?_ rfl
-      have hg : (decide ((getW s i).inPos ≤ (getW s i).inPos) && decide ((getW s i).inPos ≤ lim) &&
-          decide ((getW s i).inPos ≤ (blk s (getW s i).blk).needIn) &&
+    have hwfb := hwf (getW s i).blk
+    by_cases hlt : lim < (blk s (getW s i).blk).needIn
+    · -- the decoder consumes everything it was given and asks for more
+      refine enabled_of_isSome (l := .wDecode i lim (getW s i).outPos false) ?_ rfl ?_
+      · have hg : (decide ((getW s i).inPos ≤ lim) && decide (lim ≤ lim) &&
+            decide (lim ≤ (blk s (getW s i).blk).needIn) && decide ((getW s i).outPos ≤ (getW s i).outPos) &&
+            decide ((getW s i).outPos ≤ (blk s (getW s i).blk).data.length) &&
+            (false || decide (lim < (blk s (getW s i).blk).inSize))) = true := by
+          have := hwfb.2.2.1
+          simp only [Bool.and_eq_true, decide_eq_true_eq, Bool.or_eq_true, Bool.false_eq_true, false_or]
+          exact ⟨⟨⟨⟨⟨hd.1, Nat.le_refl _⟩, Nat.le_of_lt hlt⟩, Nat.le_refl _⟩, hp.2.2.1⟩, by omega⟩
+        simp only [step, hi, if_true, hpc, hg]
+        simp
+        split <;> rfl
+      · by_cases e : (getW s i).inPos < lim
+        · exact Or.inr (Or.inl e)
+        · exact Or.inr (Or.inr (Or.inr ⟨lim, pu, hpc, by have := hd.1; omega⟩))
+    · -- the verdict position is within the given input: the decoder delivers its verdict
+      have hle : (blk s (getW s i).blk).needIn ≤ lim := by omega
+      refine enabled_of_isSome (l := .wDecode i (blk s (getW s i).blk).needIn (blk s (getW s i).blk).data.length true) ?_ rfl
+        (Or.inl rfl)
+      have hg : (decide ((getW s i).inPos ≤ (blk s (getW s i).blk).needIn) && decide ((blk s (getW s i).blk).needIn ≤ lim) &&
+          decide ((blk s (getW s i).blk).needIn ≤ (blk s (getW s i).blk).needIn) &&
           decide ((getW s i).outPos ≤ (blk s (getW s i).blk).data.length) &&
           decide ((blk s (getW s i).blk).data.length ≤ (blk s (getW s i).blk).data.length) &&
-          (true || decide ((getW s i).inPos < (blk s (getW s i).blk).inSize))) = true := by
-        simp [hd.1, hp.2.1, hp.2.2.1]
-      have hv : (decide ((getW s i).inPos = (blk s (getW s i).blk).needIn) &&
-          decide ((blk s (getW s i).blk).data.length = (blk s (getW s i).blk).data.length)) = true := by
-        simp [hneed]
+          (true || decide ((blk s (getW s i).blk).needIn < (blk s (getW s i).blk).inSize))) = true := by
+        simp [hle, hp.2.1, hp.2.2.1]
       simp only [step, hi, if_true, hpc, hg]
-      simp [hneed]
+      simp
   | publish => exact enabled_of_isSome (l := .wPublish i) (by simp [step, hi, hpc]) rfl
   | fin1 r => exact enabled_of_isSome (l := .wFin1 i) (by simp [step, hi, hpc]) rfl
   | fin2 r => exact enabled_of_isSome (l := .wFin2 i) (by simp [step, hi, hpc]) rfl
@@ -121,7 +130,7 @@ theorem joining_only_workers {s s' : State} {l : Label} {j : Nat} {k : EndK} (hp
 
 /-- **Deadlock freedom.** -/
 theorem progress {cfg : Cfg} {blocks : List Block} (hwf : ∀ b ∈ blocks, b.WF) {s : State} (hr : Reachable cfg blocks s)
-    (hne : s.pc ≠ .ended) : ∃ l s', step s l = some s' ∧ l.isExpiry = false := by
+    (hne : s.pc ≠ .ended) : ∃ l s', step s l = some s' ∧ l.isExpiry = false ∧ Progressive s l := by
   have g := GInv.reachable hwf hr
   have hP := PrivInv.reachable hwf hr
   have hW := WakeInv.reachable hwf hr
